@@ -23,6 +23,7 @@ type Profile struct {
 	Cascade     bool
 	HostileQ    bool // ids and strings starting with "?"
 	Index       bool // rule patterns that share index prefixes; events instantiated from stored patterns
+	Scheduled   bool // some rules have a schedule instead of a when
 	SideEffects bool // some rule actions report their bindings, throw, or write a fact (Env.AddFact)
 	Dispatch    bool // rules with conditions and reporting / failing actions
 	MixedEvents bool // events may hold arrays of mixed scalar types (known finding D_UNSORTABLE_EVENT)
@@ -243,11 +244,18 @@ func (g *Gen) condition() map[string]interface{} {
 	switch g.R.Intn(8) {
 	case 0, 1, 2:
 		return pat()
-	case 3:
+	case 3, 4:
+		// two DIFFERENT sub-queries: the value encoding keeps arrays as sets
 		a, b := pat(), pat()
-		return map[string]interface{}{"and": []interface{}{a, b}}
-	case 4:
-		a, b := pat(), pat()
+		for i := 0; i < 20 && fmt.Sprint(a) == fmt.Sprint(b); i++ {
+			b = pat()
+		}
+		if fmt.Sprint(a) == fmt.Sprint(b) {
+			return a
+		}
+		if g.R.Intn(2) == 0 {
+			return map[string]interface{}{"and": []interface{}{a, b}}
+		}
 		return map[string]interface{}{"or": []interface{}{a, b}}
 	case 5:
 		return map[string]interface{}{"not": pat()}
@@ -264,7 +272,11 @@ func (g *Gen) condition() map[string]interface{} {
 func (g *Gen) action() map[string]interface{} {
 	g.nact++
 	tag := fmt.Sprintf("t%d.%d", g.R.Intn(1000000), g.nact)
-	switch g.R.Intn(7) {
+	k := g.R.Intn(7)
+	if g.P.Keys && g.R.Intn(2) == 0 {
+		k = 6 // protected locations: mostly actions that write
+	}
+	switch k {
 	case 6:
 		// writes a fact into the event's location, with the caller's keys
 		id := "made-" + tag
@@ -497,6 +509,10 @@ func (g *Gen) Rule() map[string]interface{} {
 		p := g.ixPattern()
 		g.remember(p)
 		r := map[string]interface{}{"when": map[string]interface{}{"pattern": p}}
+		if g.P.Scheduled && g.R.Intn(6) == 0 {
+			delete(r, "when")
+			r["schedule"] = []string{"+1h", "* * * * * * *"}[g.R.Intn(2)]
+		}
 		if g.P.Expiry && g.R.Intn(2) == 0 {
 			g.addExpiry(r)
 			if _, str := r["expires"].(string); str {
@@ -522,6 +538,11 @@ func (g *Gen) Rule() map[string]interface{} {
 		r["actions"] = []interface{}{map[string]interface{}{"code": "2"}}
 	}
 	g.remember(r["when"].(map[string]interface{})["pattern"].(map[string]interface{}))
+	if g.P.Scheduled && g.R.Intn(5) == 0 {
+		// a scheduled rule (never dispatched by an event)
+		delete(r, "when")
+		r["schedule"] = []string{"+1h", "* * * * * * *", "!2033-01-01T00:00:00Z"}[g.R.Intn(3)]
+	}
 	if g.P.SideEffects && g.R.Intn(2) == 0 {
 		delete(r, "actions")
 		r["action"] = g.action()
